@@ -2375,10 +2375,14 @@ impl EncCase {
                 let base = v.as_ptr() as usize;
                 if op == "send" {
                     let mut f = fd.send(v);
+                    let zc_first = kv.get("ord") == Some("1");
+                    if zc_first && zc {
+                        f = f.zc();
+                    }
                     if let Some(x) = fl {
                         f = f.flags(x);
                     }
-                    if zc {
+                    if !zc_first && zc {
                         f = f.zc();
                     }
                     let posix = format!("call send {pfd} buf=buf0+0 count={len} flags={} zc={}", sfl.unwrap_or(0), u8::from(zc));
@@ -2389,10 +2393,14 @@ impl EncCase {
                     let posix = format!("call sendto {pfd} buf=buf0+0 count={len} flags={} addr={a} zc={}", sfl.unwrap_or(0), u8::from(zc));
                     let obj = with_addr!(spec, a => {
                         let mut f = fd.send_to(v, a);
+                        let zc_first = kv.get("ord") == Some("1");
+                        if zc_first && zc {
+                            f = f.zc();
+                        }
                         if let Some(x) = fl {
                             f = f.flags(x);
                         }
-                        if zc {
+                        if !zc_first && zc {
                             f = f.zc();
                         }
                         fut_late(f, move |f| { let f = f.flags(late_send_flags()); if zc { f } else { f.zc() } }, move |r| scalar_out(r, n, &fails))
@@ -2561,6 +2569,10 @@ impl EncCase {
                     if v != libc::O_DIRECT as u128 {
                         return None;
                     }
+                }
+                // builder setters in either order (`ord=1`: kind before flags)
+                let kind_first = kv.get("ord") == Some("1");
+                if !kind_first && pfl.is_some() {
                     f = f.flags(a10::pipe::PipeFlag::DIRECT);
                 }
                 let kind = match ck {
@@ -2575,6 +2587,9 @@ impl EncCase {
                     }
                     _ => return None,
                 };
+                if kind_first && pfl.is_some() {
+                    f = f.flags(a10::pipe::PipeFlag::DIRECT);
+                }
                 let mut want: Option<(i64, i64)> = None;
                 // pipe2(2) of the fallback returns regular descriptors whatever was asked
                 let got_kind = if fbk { "f" } else { kind };
@@ -3721,7 +3736,7 @@ impl EncCase {
                 if op == "write" {
                     s += &format!(" off={}", g_off(rng));
                 } else {
-                    s += &format!(" sfl={} zc={}", g_bits(rng, &SEND_BITS), rng.below(2));
+                    s += &format!(" sfl={} zc={} ord={}", g_bits(rng, &SEND_BITS), rng.below(2), rng.below(2));
                     if op == "sendto" {
                         s += &format!(" a={}", g_addr(rng, true));
                     }
@@ -3887,7 +3902,7 @@ impl EncCase {
                 while b2 == a {
                     b2 = g_newfd(rng, self, kind);
                 }
-                format!("ck={ck} pfl={} pfds={a},{b2}", if rng.chance(1, 2) { "none".to_string() } else { libc::O_DIRECT.to_string() })
+                format!("ck={ck} pfl={} ord={} pfds={a},{b2}", if rng.chance(1, 2) { "none".to_string() } else { libc::O_DIRECT.to_string() }, rng.below(2))
             }
             _ => format!("addr={} len={} adv={}", g_u64(rng), g_u32(rng), rng.pick(&madvise_table()).0),
         };
